@@ -564,6 +564,7 @@ func runC02(c *eng.Ctx) {
 	runC02NamedInitializers(c, next)
 	runC02BuildTimeScope(c, next)
 	runC02BackgroundDuringCreation(c, next)
+	runC02TwoScopesOneConstructor(c, next)
 	// scoped registrations whose constructors are distinct function values sharing code (closures of
 	// one literal, method values, MakeFunc; variadic ones among them): the scope's instance of each
 	// registration is the output of ITS constructor, which ran once
